@@ -19,14 +19,14 @@ type Dom struct {
 
 // Variant is one discriminator binding of a wire-format oracle.
 type Variant struct {
-	Name   string
-	Dom    map[string]Dom   // atom domains (the values the property quantifies over)
-	Bind   map[string]int64 // atoms bound to constants (discriminators); width from Dom or 8
+	Name     string
+	Dom      map[string]Dom          // atom domains (the values the property quantifies over)
+	Bind     map[string]int64        // atoms bound to constants (discriminators); width from Dom or 8
 	BindBits map[string]map[int]bool // single bits bound (flag partitions)
 	Not      []string                // predicate keys assumed false ("v.EventType == 26")
 	Nil      []string                // lazily symbolic pointers/interfaces that are nil in this variant
-	Assume []*abs.Lin       // extra constraints, each >= 0
-	Spec   []abs.SegSpec    // the layout
+	Assume   []*abs.Lin              // extra constraints, each >= 0
+	Spec     []abs.SegSpec           // the layout
 	// decoder direction: expected results
 	Fields map[string]Want // result name -> expected field
 	// additional set-up on the path (streams, receiver state)
